@@ -462,6 +462,9 @@ def component(draw, env, depth, kinds):
         return ["->", l, action(draw, env, max(0, depth - 1))]
     if k == "se":
         return side_effect(draw, env, max(0, depth - 1))
+    if k == "last":
+        q = draw(st.sampled_from([[], [], ["nocontrib"]]))
+        return ["->", ["f", "last", q, []], action(draw, env, 0)]
     if k == "print":
         chunks = [["text", draw(st.sampled_from(["row ", "at ", "x: ", "line="]))]]
         for _ in range(draw(st.integers(0, 3))):
@@ -503,9 +506,13 @@ def programs(draw, table, kinds=("b", "b", "b", "assign", "assign", "when", "se"
     n = draw(st.integers(1, max_comps))
     kinds = list(kinds)
     if mode == "OR":
-        kinds = [k for k in kinds if k in ("b", "assign", "when", "every", "first")] or ["b"]
+        kinds = [k for k in kinds if k in ("b", "assign", "when", "every", "first", "last")] or ["b"]
         # (bare side effects and print are AND-mode only: their OR-mode vote is not documented)
     comps = [component(draw, env, draw(st.integers(0, depth)), kinds) for _ in range(n)]
+    lasts = [c for c in comps if c[0] == "->" and c[1][0] == "f" and c[1][1] == "last"]
+    if lasts:
+        # at most one 'last() ->' component, and it comes last (quantifier of C01/C13)
+        comps = [c for c in comps if c not in lasts] + [lasts[0]]
     return {"comps": comps, "mode": mode, "ignore_vars": env.ignore_vars}
 
 
